@@ -212,7 +212,9 @@ func (d *disconnectHandler) handleGracePeriodExpired() {
 		)
 
 		verifNote(d.election, "grace_demote", 0)
-		d.election.becomeFollower()
+		if !d.election.becomeFollower() {
+			return
+		}
 
 		d.election.mu.RLock()
 		onDemote := d.election.onDemote
